@@ -122,13 +122,13 @@ Definition max_text_length : Z := 1000000%Z.
 (* big.Int.BitLen of the coefficient *)
 Definition bit_len (m : Z) : Z := if (m =? 0)%Z then 0%Z else (Z.log2 (Z.abs m) + 1)%Z.
 
-(* types.spendSize(x, asJSON, indent = 0, depth, budget): every value costs 1 plus the number of arrays and objects it
-   is nested in; a text its bytes, a number the digits of its coefficient (a third of its bits) and its exponent, a
+(* types.spendSize(x, asJSON, indent = 0, depth, budget): every value costs 1 (since e7a2eae however deep it is nested:
+   the depth argument is kept for the indentation that format() charges, which is not modelled); a text its bytes, a number the digits of its coefficient (a third of its bits) and its exponent, a
    property its name. An object with a default is written as that default, and as JSON also with its properties.
    The walk in the code stops as soon as the budget is negative; all the costs are non-negative, so its verdict is
    "the total is at most the budget". *)
 Fixpoint value_cost (as_json : bool) (depth : Z) (v : value) : Z :=
-  (1 + depth +
+  (1 +
    match v with
    | VText s => byte_len s
    | VNum d => bit_len (mant d) / 3 + Z.abs (dexp d)
@@ -155,11 +155,13 @@ Definition too_large (as_json : bool) (v : value) : bool := (max_render_size <? 
 (* ------------------------------------------------------------------------------------------------ *)
 (* conversions *)
 
-(* ToXText: nil is the empty text, an error is returned, a value too large to write is an error, else Render *)
+(* ToXText: nil is the empty text, an error is returned, a text is itself whatever its length (18919b0), a value too
+   large to write is an error, else Render *)
 Definition to_text (v : value) : conv text :=
   match v with
   | VNil => Ok []
   | VErr => Bad
+  | VText s => Ok s
   | _ => if too_large false v then Bad else Ok (render_value v)
   end.
 
